@@ -11,7 +11,9 @@ BOUND = ("networks with <= 6(7) variables (exhaustive 1-variable, sampled 2-vari
          "scc and build at any position, skip_to_minimal, skip_remaining) and with reclaim_node_data / pickle round trips; after EVERY call the cached candidates, seeds and "
          "sets of EVERY node are compared with the brute-force attractors owned by the node under its current successors; every second seeded case runs under a "
          "NON-default configuration (small motif / candidate limits, thresholds, budgets) and the shape family (k independent switches, deep diagrams, block-structured "
-         "motif-avoidant networks) combines such configurations with pickle round trips and reclaim_node_data between queries and expansions")
+         "motif-avoidant networks) combines such configurations with pickle round trips and reclaim_node_data between queries and expansions; the scc-attach shape: networks "
+         "with several source SCCs (2-4 independent bistable / oscillating modules with optional downstream module, <= 8 variables), a candidates / seeds / sets query on the stub root "
+         "or on a stub child of the root (1-3 of them), optional pickle / reclaim, then expand_scc with and without the motif-avoidance check")
 RULE = "non-trivial = at some moment a node that had cached attractor data while unexpanded was given successors"
 CASE_TIMEOUT = 60.0
 
